@@ -43,14 +43,46 @@ func checkC18(c *an.Ctx) {
 		return
 	}
 	var addCall *ssa.Call
-	for b := range stageLoop.Blocks {
-		for _, in := range b.Instrs {
-			if call, ok := in.(*ssa.Call); ok {
-				for _, callee := range p.Callees(&call.Call) {
-					if callee == add {
-						addCall = call
+	findAdd := func(fn *ssa.Function, within func(*ssa.BasicBlock) bool) {
+		for _, b := range fn.Blocks {
+			if within != nil && !within(b) {
+				continue
+			}
+			for _, in := range b.Instrs {
+				if call, ok := in.(*ssa.Call); ok {
+					for _, callee := range p.Callees(&call.Call) {
+						if callee == add {
+							addCall = call
+						}
 					}
 				}
+			}
+		}
+	}
+	findAdd(bp, func(b *ssa.BasicBlock) bool { return stageLoop.Blocks[b] })
+	if addCall == nil {
+		// the loop body may live in helpers of the package
+		var roots []*ssa.Function
+		for b := range stageLoop.Blocks {
+			for _, in := range b.Instrs {
+				if call, ok := in.(*ssa.Call); ok {
+					for _, callee := range p.Callees(&call.Call) {
+						if an.Outer(callee).Pkg == bp.Pkg && callee != bp {
+							roots = append(roots, callee)
+						}
+					}
+				}
+			}
+		}
+		for _, f := range sortedFns(func() map[*ssa.Function]bool {
+			m := map[*ssa.Function]bool{}
+			for f := range p.Reach(roots, func(e an.CallEdge) bool { return an.Outer(e.Callee).Pkg == bp.Pkg && e.Callee != bp && e.Kind == an.EdgeCall }) {
+				m[f] = true
+			}
+			return m
+		}()) {
+			if addCall == nil {
+				findAdd(f, nil)
 			}
 		}
 	}
@@ -227,11 +259,14 @@ func checkC18(c *an.Ctx) {
 		}
 	}
 	// the lookup uses the final name of the stage that is added, in the graph it is added to
-	for b := range stageLoop.Blocks {
+	for _, b := range addCall.Parent().Blocks {
+		if addCall.Parent() == bp && !stageLoop.Blocks[b] {
+			continue
+		}
 		for _, in := range b.Instrs {
 			if call, ok := in.(*ssa.Call); ok {
 				if cc, ok := an.IsCallTo(call, fnGraphNode); ok && an.Dominates(call, addCall) {
-					sameGraph := an.SameValue(cc.Args[0], addCall.Call.Args[0])
+					sameGraph := p.SameDeep(cc.Args[0], addCall.Call.Args[0])
 					nameAP := an.AccessPath(cc.Args[1])
 					finalName := nameAP.LastField() == "Name" && an.SameValue(nameAP.Base, addCall.Call.Args[1])
 					c.Check(sameGraph && finalName, "C18.2", an.Short(bp)+":duplicate-check(args)", call.Pos(), "the lookup uses the stage's final name in the graph being built", "the duplicate check does not look up the stage's own Name in the graph the stage is added to")
@@ -424,7 +459,7 @@ func dependsOnValidator(c *an.Ctx, bp *ssa.Function, stageLoop *an.Loop, rule st
 		if outer != nil {
 			for _, src := range an.Sources(outer.RangeOperand()) {
 				if call, ok := src.(*ssa.Call); ok {
-					if cc, ok := an.IsCallTo(call, fnGraphNodes); ok && an.SameValue(cc.Args[0], lookGraph) {
+					if cc, ok := an.IsCallTo(call, fnGraphNodes); ok && p.SameDeep(cc.Args[0], lookGraph) {
 						allNodes = true
 					}
 				}
@@ -468,6 +503,32 @@ func dependsOnValidator(c *an.Ctx, bp *ssa.Function, stageLoop *an.Loop, rule st
 					}
 				}
 			}
+			if addGraph == nil {
+				// AddStage is called by a helper of the loop body
+				var roots []*ssa.Function
+				for b := range stageLoop.Blocks {
+					for _, in := range b.Instrs {
+						if call, ok := in.(*ssa.Call); ok {
+							for _, callee := range p.Callees(&call.Call) {
+								if an.Outer(callee).Pkg == bp.Pkg && callee != bp {
+									roots = append(roots, callee)
+								}
+							}
+						}
+					}
+				}
+				for f := range p.Reach(roots, func(e an.CallEdge) bool { return an.Outer(e.Callee).Pkg == bp.Pkg && e.Callee != bp && e.Kind == an.EdgeCall }) {
+					an.EachInstr(f, func(in ssa.Instruction) {
+						if call, ok := in.(*ssa.Call); ok {
+							for _, callee := range p.Callees(&call.Call) {
+								if callee.Name() == "AddStage" && callee.Signature.Recv() != nil && an.TypeIs(callee.Signature.Recv().Type(), "pkg/scheduler", "ExecutionGraph") {
+									addGraph = call.Call.Args[0]
+								}
+							}
+						}
+					})
+				}
+			}
 			good := false
 			for _, site := range sites {
 				after := stageLoop.NormalExit() != nil && stageLoop.NormalExit().Dominates(site.Block()) && !stageLoop.Blocks[site.Block()]
@@ -478,6 +539,9 @@ func dependsOnValidator(c *an.Ctx, bp *ssa.Function, stageLoop *an.Loop, rule st
 				sameGraph := false
 				if pi := paramIndexOf(cd.fn, lookGraph); pi >= 0 && addGraph != nil {
 					sameGraph = an.SameValue(site.Call.Args[pi], addGraph)
+				}
+				if !sameGraph && addGraph != nil {
+					sameGraph = p.SameDeep(lookGraph, addGraph)
 				}
 				if !sameGraph {
 					continue
